@@ -208,6 +208,10 @@ def hand_items(ids):
     # camelCase word boundaries inside "single words": a digit followed by a letter
     S("HCamelDigits", [Field("sha256sum", T.String), Field("ipv4addr", I("u8"), [[("default", None)]]), Field("utf8mode", T.Bool), Field("crc32", I("u8")),
                        Field("h264profile_id", T.Option(I("u8")))], [[("rename_all", "camelCase")], [("deny", None)]])
+    # variant names that look like numbers (an integer tag is still not a string)
+    E("HDigitTagged", [Variant("V0", [Field("x", I("u8"))], [[("rename", "0")]]), Variant("V2", [Field("name", T.String), Field("retries", I("u8"), [[("default", None)]])], [[("rename", "2")]]),
+                       Variant("V17", attrs=[[("rename", "17")]])], [[("tag", "version")]])
+    E("HDigitUnit", [Variant("Low", attrs=[[("rename", "0")]]), Variant("Mid", attrs=[[("rename", "1")]]), Variant("High", attrs=[[("rename", "2")]]), Variant("Neg", attrs=[[("rename", "-1")]])])
     # the empty string as an effective name (variant, tag value, key)
     E("HEmptyName", [Variant("Meter"), Variant("Dimensionless", attrs=[[("rename", "")]]), Variant("Mile")], [[("rename_all", "lowercase")]])
     E("HEmptyNameTagged", [Variant("Nothing", attrs=[[("rename", "")]]), Variant("Some1", [Field("x", I("u8"), [[("rename", "")]]), Field("y", T.Bool, [[("default", None)]])])],
@@ -811,6 +815,12 @@ def near_miss(key, rng):
     if len(key) >= 3:
         ops += [key[:1] + "\U0001f600" + key[2:], key[:1] + "\U0001f600\U0001f600" + key[3:], key[:2] + "\u20ac" + key[2:], key[:-1] + "\u00e9",
                 key[:1] + "\U0001f600" + key[1:] + "\U0001f600", key + "\u20ac\u20ac"]
+    # the other spelling conventions of the same words, and decorations that form / query libraries append
+    if "_" in key:
+        ops += [py_camel(key), key.replace("_", "-"), key.replace("_", " ")]
+    if any(ch.isupper() for ch in key[1:]):
+        ops += ["".join("_" + ch.lower() if ch.isupper() and i else ch.lower() for i, ch in enumerate(key))]
+    ops += [key + "[]", key + "?", key + "[0]", key + "."]
     # a different character of the same UTF-8 length sharing its leading bytes (the texts first differ INSIDE a character)
     nonascii = [i for i, ch in enumerate(key) if ord(ch) > 127]
     if nonascii:
@@ -957,6 +967,21 @@ def gen_payloads(entry, rng, n, max_faults=3):
             drops = rng.sample(drops, 8)
         for q in drops:
             out.append((q, 1))
+    # other encodings of an enum that deserr does not speak: externally tagged objects, the variant index
+    if entry.ty[0] == "item" and entry.ty[1].kind == "enum":
+        it = entry.ty[1]
+        for vi, v in enumerate(it.variants[:4]):
+            vk = variant_key(it, v)
+            body = {"m": gen_fields_valid(v.fields or [], variant_ra(v), rng, 1)} if v.fields else None
+            out.append(({"m": [[vk, body]]}, -1))
+            out.append((wi(vi), -1))
+            if vk.lstrip("-").isdigit():
+                out.append((wi(int(vk)), -1))
+                if it.get("tag"):
+                    out.append(({"m": [[it.get("tag")[1], wi(int(vk))]] + (body["m"] if body else [])}, -1))
+            if it.get("tag"):
+                out.append(({"m": [[it.get("tag")[1], wi(vi)]] + (body["m"] if body else [])}, -1))
+                out.append(({"m": [[it.get("tag")[1], vk.upper() if vk.upper() != vk else vk.lower()]] + (body["m"] if body else [])}, -1))
     # a typo in a key: the member is an unknown key AND the field it was meant for is missing (two independent faults)
     if entry.ty[0] == "item" or contains_item(entry.ty):
         base2 = gen_valid(entry.ty, rng)
@@ -1028,7 +1053,10 @@ def gen_payloads(entry, rng, n, max_faults=3):
         # maps whose keys are parsed: unparsable keys and faulty values mixed, in any order
         for _ in range(3):
             out.append((map_fault_payload(entry.ty, rng), -1))
-    return out
+    # no sharing between the parts of a payload (families that repeat an element would otherwise alias it, and an edit of
+    # one occurrence would silently edit the other)
+    import json as _json
+    return [(_json.loads(_json.dumps(q)), k) for q, k in out]
 
 
 def gen_scripts(rng, ncalls_hint=6):
